@@ -49,6 +49,8 @@ fn build_tree(base: &Path) -> PathBuf {
     std::os::unix::fs::symlink("../project2", root.join("lib/twolink")).expect("symlink");
     std::os::unix::fs::symlink("../outside.st", root.join("filelink.st")).expect("symlink");
     std::os::unix::fs::symlink(".", root.join("loop")).expect("symlink");
+    // a visible name for a hidden directory of the same project
+    std::os::unix::fs::symlink(".hidden", root.join("hidlink")).expect("symlink");
     root
 }
 
@@ -120,6 +122,10 @@ fn path_strings(rng: &mut Rng) -> Vec<(String, &'static str)> {
         ("dirlink".into(), "via-dir-symlink"),
         ("dirlink/sub/deep.txt".into(), "via-dir-symlink"),
         ("dirlink/newdir/x.st".into(), "via-dir-symlink"),
+        ("hidlink/inner.st".into(), "via-dir-symlink-to-hidden"),
+        ("hidlink/new.st".into(), "via-dir-symlink-to-hidden"),
+        ("hidlink".into(), "via-dir-symlink-to-hidden"),
+        ("loop/hidlink/inner.st".into(), "via-dir-symlink-to-hidden"),
         ("filelink.st".into(), "via-file-symlink"),
         ("loop/main.st".into(), "via-loop-symlink"),
         ("loop/loop/lib/util.st".into(), "via-loop-symlink"),
